@@ -329,7 +329,13 @@ func checkDecode(caseIdx int, cs caseSpec, idx int, data []byte, o optset, a *ag
 		return
 	}
 	if r.allocd > allocBound(len(data)) {
-		site, stack := allocSiteSince()
+		// attribute: the stack that allocated most since the baseline; then, for precision, the same decode once more
+		// against a fresh baseline (if this second decode ends the child, the parent reads the site from the crash)
+		site, stack := allocSiteSince() // since the periodic baseline (at most 256 inputs old); resets the baseline
+		if again := decodeOnce(data, 0xAA, o, true); again.allocd > allocBound(len(data)) {
+			// the decode allocates as much the second time (no one-time cache effect): the fresh profile is exact
+			site, stack = allocSiteSince()
+		}
 		mk("alloc-amplification/"+site, fmt.Sprintf("edf.Decode of %d input bytes allocated %d bytes (bound %d = 64MiB + 4096 x input)", len(data), r.allocd, allocBound(len(data))),
 			map[string]any{"alloc_stack": stack, "allocated": r.allocd})
 		debug.FreeOSMemory()
